@@ -33,10 +33,10 @@ func (Prop) Plan(t vp.Tier) []vp.Stage {
 		nb = 64
 	}
 	return []vp.Stage{
-		{Name: "str-exh", NBatches: nb, TimeoutS: 900, TimeoutIsViolation: true},
-		{Name: "tab-exh", NBatches: nb, TimeoutS: 1500, TimeoutIsViolation: true},
-		{Name: "random", NBatches: nb, TimeoutS: 1500, TimeoutIsViolation: true},
-		{Name: "sort", NBatches: nb, TimeoutS: 1500, TimeoutIsViolation: true},
+		{Name: "str-exh", NBatches: nb, TimeoutS: 3000, TimeoutIsViolation: true},
+		{Name: "tab-exh", NBatches: nb, TimeoutS: 3000, TimeoutIsViolation: true},
+		{Name: "random", NBatches: nb, TimeoutS: 3000, TimeoutIsViolation: true},
+		{Name: "sort", NBatches: nb, TimeoutS: 3000, TimeoutIsViolation: true},
 	}
 }
 
